@@ -84,6 +84,49 @@ where
 }
 
 type PStack<StorageT> = Vec<StIdx<StorageT>>; // Parse stack
+
+/// An entry on the stack of spans which parallels the actions stack: the span of a symbol and
+/// whether the symbol derived no lexemes at all (i.e. it was reduced from nothing but empty
+/// productions).
+#[derive(Clone, Copy, Debug)]
+pub(super) struct SpanEntry {
+    span: Span,
+    empty: bool,
+}
+
+impl SpanEntry {
+    fn lexeme(span: Span) -> Self {
+        SpanEntry { span, empty: false }
+    }
+}
+
+/// Calculate the span of a production whose symbols are `spans[pop_idx - 1..]`: it starts at the
+/// start of the first lexeme, and ends at the end of the last lexeme, that those symbols derived.
+/// If they derived no lexemes at all, the span is a zero-length span at the end of the preceding
+/// symbol (or at 0 if there is no such symbol).
+fn reduce_span(spans: &[SpanEntry], pop_idx: usize) -> SpanEntry {
+    let syms = &spans[pop_idx - 1..];
+    match (
+        syms.iter().find(|x| !x.empty),
+        syms.iter().rev().find(|x| !x.empty),
+    ) {
+        (Some(first), Some(last)) => SpanEntry {
+            span: Span::new(first.span.start(), last.span.end()),
+            empty: false,
+        },
+        _ => {
+            let off = if pop_idx == 1 {
+                0
+            } else {
+                spans[pop_idx - 2].span.end()
+            };
+            SpanEntry {
+                span: Span::new(off, off),
+                empty: true,
+            }
+        }
+    }
+}
 type TokenCostFn<'a, StorageT> = &'a (dyn Fn(TIdx<StorageT>) -> u8 + 'a);
 type ActionFn<'a, 'b, 'input, StorageT, LexerTypesT, ActionT, ParamT> = &'a dyn Fn(
     RIdx<StorageT>,
@@ -308,7 +351,7 @@ where
         pstack: &mut PStack<StorageT>,
         astack: &mut Vec<AStackType<LexerTypesT::LexemeT, ActionT>>,
         errors: &mut Vec<LexParseError<StorageT, LexerTypesT>>,
-        spans: &mut Vec<Span>,
+        spans: &mut Vec<SpanEntry>,
     ) -> Option<ActionT> {
         let mut recoverer = None;
         let mut recovery_budget = Duration::from_millis(RECOVERY_TIME_BUDGET);
@@ -326,15 +369,10 @@ where
                     let prior = *pstack.last().unwrap();
                     pstack.push(self.stable.goto(prior, ridx).unwrap());
 
-                    let span = if spans.is_empty() {
-                        Span::new(0, 0)
-                    } else if pop_idx - 1 < spans.len() {
-                        Span::new(spans[pop_idx - 1].start(), spans[spans.len() - 1].end())
-                    } else {
-                        Span::new(spans[spans.len() - 1].start(), spans[spans.len() - 1].end())
-                    };
+                    let span_entry = reduce_span(spans, pop_idx);
+                    let span = span_entry.span;
                     spans.truncate(pop_idx - 1);
-                    spans.push(span);
+                    spans.push(span_entry);
 
                     let v = AStackType::ActionType(self.actions[usize::from(pidx)](
                         ridx,
@@ -350,7 +388,7 @@ where
                     pstack.push(state_id);
                     astack.push(AStackType::Lexeme(la_lexeme));
 
-                    spans.push(la_lexeme.span());
+                    spans.push(SpanEntry::lexeme(la_lexeme.span()));
                     laidx += 1;
                 }
                 Action::Accept => {
@@ -421,7 +459,7 @@ where
         end_laidx: usize,
         pstack: &mut PStack<StorageT>,
         astack: &mut Option<&mut Vec<AStackType<LexerTypesT::LexemeT, ActionT>>>,
-        spans: &mut Option<&mut Vec<Span>>,
+        spans: &mut Option<&mut Vec<SpanEntry>>,
     ) -> usize {
         assert!(lexeme_prefix.is_none() || end_laidx == laidx + 1);
         while laidx != end_laidx && laidx <= self.lexemes.len() {
@@ -438,21 +476,10 @@ where
                     let pop_idx = pstack.len() - self.grm.prod(pidx).len();
                     if let Some(ref mut astack_uw) = *astack {
                         if let Some(ref mut spans_uw) = *spans {
-                            let span = if spans_uw.is_empty() {
-                                Span::new(0, 0)
-                            } else if pop_idx - 1 < spans_uw.len() {
-                                Span::new(
-                                    spans_uw[pop_idx - 1].start(),
-                                    spans_uw[spans_uw.len() - 1].end(),
-                                )
-                            } else {
-                                Span::new(
-                                    spans_uw[spans_uw.len() - 1].start(),
-                                    spans_uw[spans_uw.len() - 1].end(),
-                                )
-                            };
+                            let span_entry = reduce_span(spans_uw, pop_idx);
+                            let span = span_entry.span;
                             spans_uw.truncate(pop_idx - 1);
-                            spans_uw.push(span);
+                            spans_uw.push(span_entry);
 
                             let v = AStackType::ActionType(self.actions[usize::from(pidx)](
                                 ridx,
@@ -481,7 +508,7 @@ where
                             self.next_lexeme(laidx)
                         };
                         astack_uw.push(AStackType::Lexeme(la_lexeme));
-                        spans_uw.push(la_lexeme.span());
+                        spans_uw.push(SpanEntry::lexeme(la_lexeme.span()));
                     }
                     pstack.push(state_id);
                     laidx += 1;
@@ -619,7 +646,7 @@ pub(super) trait Recoverer<
         in_laidx: usize,
         in_pstack: &mut PStack<StorageT>,
         astack: &mut Vec<AStackType<LexerTypesT::LexemeT, ActionT>>,
-        spans: &mut Vec<Span>,
+        spans: &mut Vec<SpanEntry>,
     ) -> (usize, Vec<Vec<ParseRepair<LexerTypesT::LexemeT, StorageT>>>);
 }
 
